@@ -31,8 +31,8 @@ from harness import spell
 FIELDS = ["u", "v", "w"]
 LAST_KLASS = None          # scenario class of the last run_one (for known-finding matching), set by the runners
 SHIFT_KLASS = {"grid": None,        # (whip was repaired: no class, a failure is a violation)
-               "plate": "mandoline2d/index-space-not-at-0",
-               "integral": "pestle/index-space-not-at-0", "point": None}       # (the point query was repaired: no class, a failure is a violation)
+               "plate": None,                                  # (the 2-D flattening was repaired)
+               "integral": None, "point": None}       # (the point query was repaired: no class, a failure is a violation)
 
 
 def models(tier):
@@ -361,9 +361,10 @@ def slice3d(chk, sc, cfgseed, plt=False):
     LAST_KLASS = None
     shifted = (not plt) and cfgseed % 5 == 2
     if shifted:
-        # the same hierarchy in an index space that does not start at 0 (physical coordinates unchanged).  KNOWN FINDING
-        # (known_findings.json, class "mandoline/index-space-not-at-0"): the slicer places boxes at their raw indices
-        LAST_KLASS = "mandoline/index-space-not-at-0"
+        # the same hierarchy in an index space that does not start at 0 (physical coordinates unchanged).  The slicer used
+        # to place boxes at their raw indices (known_findings.json, "mandoline/index-space-not-at-0", repaired): no class,
+        # a failure is a violation
+        LAST_KLASS = None
         orig_nested = nested_ap
 
         def shifted_ap(sc_, nd_, split_, rng_, even_=False):
